@@ -1,8 +1,81 @@
-(* C13 — Scientific instance files are read faithfully. Only property theorems, each closed by `exact`. *)
+(* C13 — Scientific instance files are read faithfully.
+   Only the property theorems, each closed by `exact`.  Definitions (model of the readers, abstract instances,
+   printers, expected problems) are in Model/Scientific.v, lemmas in Proofs/ScientificP.v. *)
 From VRP Require Import Base.Tac Model.Scientific Proofs.ScientificP.
-From Coq Require Import String.
+From Coq Require Import String Permutation.
 
+(* ---- Solomon: parsing the printed text of any well-formed instance (any 4+4 header lines) yields exactly its
+   customers (id, demand as static delivery, window, service), depot, fleet size, capacity, coordinate index ---- *)
+Theorem C13_parse_print_solomon : forall I h1 h2,
+  sol_wf I -> List.length h1 = 4%nat -> List.length h2 = 4%nat ->
+  read_solomon_defs (print_solomon h1 h2 I) = Ok (expected_solomon I).
+Proof. exact parse_print_solomon. Qed.
+
+(* ---- TSPLIB (CVRP, EUC_2D): for every iteration order pn of the reader's hash map, any 2 header lines and any
+   number k of zero decimals on coordinates/capacity ---- *)
+Theorem C13_parse_print_tsplib : forall I h k pn,
+  tsp_wf I -> List.length h = 2%nat -> Permutation pn (ti_nodes I) ->
+  read_tsplib_defs (map t_id pn) (print_tsplib h k I) = Ok (expected_tsplib pn I).
+Proof. exact parse_print_tsplib. Qed.
+
+(* ---- Li & Lim.  FULL STATEMENT (does not hold for the code as it is, see _refuted below):
+     forall I, lil_wf I -> read_lilim_defs (print_lilim I) = Ok (expected_lilim I).
+   Proved: the same up to the id and demand of the pickup/delivery sub-jobs (erase_dimens), i.e. pairing, job
+   order, locations, windows, service times, depot, fleet size and capacity are faithful.
+   Missing: signed demands of the pairs — lilim/reader.rs::create_single_job drops them. ---- *)
+Theorem C13_parse_print_lilim_partial : forall I, lil_wf I ->
+  read_lilim_defs (print_lilim I) = Ok (erase_dimens (expected_lilim I)).
+Proof. exact parse_print_lilim_partial. Qed.
+(* the same for every arrangement of the node lines that keeps the pickups in request order *)
+Theorem C13_parse_print_lilim_any_layout_partial : forall I rows,
+  1 <= li_number I < two64 -> nat32 (li_capacity I) -> 0 <= li_speed I < two64 -> node_wf (li_depot I) ->
+  lilim_layout I rows ->
+  read_lilim_defs (print_lilim_rows I rows) = Ok (erase_dimens (expected_lilim I)).
+Proof. exact parse_print_lilim_layout. Qed.
+Theorem C13_parse_print_lilim_refuted :
+  exists I, lil_wf I /\ read_lilim_defs (print_lilim I) <> Ok (expected_lilim I).
+Proof. exact parse_print_lilim_refuted. Qed.
+
+(* ---- coordinates -> location indices: the expected problems above use `all_coords` / `loc_of`; these are faithful:
+   the index has no duplicates and the location of every coordinate of the sequence holds that coordinate ---- *)
+Theorem C13_coord_index_nodup : forall cs, NoDup (all_coords cs).
+Proof. exact all_coords_NoDup. Qed.
+Theorem C13_location_faithful : forall cs c, In c cs ->
+  exists i, loc_of (all_coords cs) c = Z.of_nat i /\ nth_error (all_coords cs) i = Some c.
+Proof. exact loc_of_faithful. Qed.
+
+(* ---- distances: the matrix entry for the locations of two coordinates is their (rounded) Euclidean distance;
+   rounding is specified by its defining inequalities  r - 1/2 <= sqrt s < r + 1/2  (squared) ---- *)
+Theorem C13_distance_between : forall rd cs a b, In a cs -> In b cs ->
+  exists i j row, loc_of (all_coords cs) a = Z.of_nat i /\ loc_of (all_coords cs) b = Z.of_nat j /\
+                  nth_error (matrix rd (all_coords cs)) i = Some row /\ nth_error row j = Some (dist rd a b).
+Proof. exact distance_between. Qed.
 Theorem C13_round_spec : forall s, 0 <= s ->
   let r := isqrt_round s in
   0 <= r /\ 4 * s < (2 * r + 1) * (2 * r + 1) /\ (0 < r -> (2 * r - 1) * (2 * r - 1) <= 4 * s).
 Proof. exact isqrt_round_spec. Qed.
+Theorem C13_round_unique : forall s r, 0 <= s -> 0 <= r ->
+  4 * s < (2 * r + 1) * (2 * r + 1) -> (0 < r -> (2 * r - 1) * (2 * r - 1) <= 4 * s) -> r = isqrt_round s.
+Proof. exact isqrt_round_unique. Qed.
+Theorem C13_dist_symmetric_zero_diag : forall rd a b, dist rd a b = dist rd b a /\ dist rd a a = 0.
+Proof. intros rd a b. split; [exact (dist_sym rd a b)|exact (dist_self rd a)]. Qed.
+
+(* ---- TSPLIB parse_int: decimals are rounded to the nearest integer, ties away from zero ---- *)
+Theorem C13_decimal_rounding : forall m k,
+  let d := 10 ^ Z.of_nat k in let r := round_half_away m k in
+  2 * Z.abs (r * d - m) <= d /\ (2 * Z.abs (r * d - m) = d -> Z.abs m < Z.abs (r * d)).
+Proof. exact round_half_away_spec. Qed.
+
+(* ---- initial solution (Solomon / TSPLIB text): reading back what was written gives the same routes ---- *)
+Theorem C13_init_text_roundtrip : forall known nveh rs cost,
+  Forall (Forall (fun z => In z known)) rs -> (List.length rs <= nveh)%nat ->
+  read_init known nveh (write_solution rs cost) = Ok rs.
+Proof. exact init_text_roundtrip. Qed.
+
+(* ---- non-vacuity: the well-formedness hypotheses are satisfiable by instances with customers ---- *)
+Theorem C13_nonvacuous_solomon : exists I, sol_wf I /\ List.length (si_custs I) = 2%nat.
+Proof. exists sol_witness. split; [exact sol_witness_wf|reflexivity]. Qed.
+Theorem C13_nonvacuous_lilim : exists I, lil_wf I /\ List.length (li_reqs I) = 1%nat.
+Proof. exists lil_witness. split; [exact lil_witness_wf|reflexivity]. Qed.
+Theorem C13_nonvacuous_tsplib : exists I, tsp_wf I /\ List.length (ti_nodes I) = 3%nat.
+Proof. exists tsp_witness. split; [exact tsp_witness_wf|reflexivity]. Qed.
